@@ -25,3 +25,4 @@ open ZnVerif.Properties.C14
 #print axioms history_refines_spec
 #print axioms history_self_consistent
 #print axioms history_observations_consistent
+#print axioms text_methods_refine_spec
